@@ -9,115 +9,181 @@ import (
 	"golang.org/x/tools/go/ssa"
 )
 
-func runC11M3(c *Ctx) {
-	getCert := c.fn("cert", "getCertificate")
-	if getCert == nil {
-		return
+// ---- C11.M3: wildcard candidates keep the label count ------------------------------------------------------------
+
+// c11labelsInPlace: s is strings.Split(x, ".") (possibly handed down through helper parameters) and the only stores into
+// its elements are "*".
+func c11labelsInPlace(s ssa.Value, depth int) bool {
+	if s == nil || depth > 3 {
+		return false
 	}
-	n := 0
-	eachInstr(getCert, func(i ssa.Instruction) {
-		lk, ok := i.(*ssa.Lookup)
-		if !ok || !strings.HasSuffix(accessPath(lk.X), "NameToCertificate") {
-			return
-		}
-		// exact lookup: the key is the normalised name itself (no "*" involved)
-		star := derives(lk.Index, func(v ssa.Value) bool { s, ok := constString(v); return ok && strings.Contains(s, "*") })
-		join, isJoin := lk.Index.(*ssa.Call)
-		if !star && !(isJoin && calleeName(&join.Call) == "strings.Join") {
-			return
-		}
-		n++
-		ok2 := false
-		if isJoin && calleeName(&join.Call) == "strings.Join" {
-			if sep, _ := constString(join.Call.Args[1]); sep == "." {
-				// joined slice = strings.Split(name, ".") with in-place "*" stores only
-				if sp, isSp := join.Call.Args[0].(*ssa.Call); isSp && calleeName(&sp.Call) == "strings.Split" {
-					if s, _ := constString(sp.Call.Args[1]); s == "." {
-						ok2 = true
-						for _, r := range *sp.Referrers() {
-							if ia, isIA := r.(*ssa.IndexAddr); isIA {
-								for _, r2 := range *ia.Referrers() {
-									if st, isSt := r2.(*ssa.Store); isSt {
-										if v, isK := constString(st.Val); !isK || v != "*" {
-											ok2 = false
-										}
-									}
-								}
-							}
+	if refs := s.Referrers(); refs != nil {
+		for _, r := range *refs {
+			if ia, isIA := r.(*ssa.IndexAddr); isIA && ia.X == s {
+				for _, r2 := range *ia.Referrers() {
+					if st, isSt := r2.(*ssa.Store); isSt && st.Addr == ia {
+						if v, isK := constString(st.Val); !isK || v != "*" {
+							return false
 						}
 					}
 				}
 			}
 		}
-		c.check("C11.M3", "cert.getCertificate|wildcard candidate keeps the label count of the requested name", lk.Pos(), ok2,
-			"a wildcard certificate covers exactly the labels it replaces: candidates must be the requested name with labels replaced by \"*\" in place (strings.Split / store \"*\" / strings.Join), so '*.bar.com' is tried for 'a.bar.com' but never for 'a.b.bar.com'; building candidates as \"*.\"+<parent domain> presents a wildcard certificate for names it does not cover instead of the default certificate (or none with strict matching)")
-	})
-	c.atLeast("C11.M3", "wildcard lookups in the name index", n, 1)
-}
-
-// ---- C12.A1: an auth scheme's positive verdict comes from the credential matcher, per request ------------------
-
-func runC11M4(c *Ctx) {
-	build := c.method("cert", "certstore", "BuildNameToCertificate")
-	if !c.need("C11.M4", build, "cert.certstore.BuildNameToCertificate") {
-		return
 	}
-	n := 0
-	eachInstr(build, func(i ssa.Instruction) {
-		mu, ok := i.(*ssa.MapUpdate)
-		if !ok || !strings.HasSuffix(accessPath(mu.Map), "NameToCertificate") {
-			return
+	switch x := s.(type) {
+	case *ssa.Call:
+		if calleeName(&x.Call) == "strings.Split" && len(x.Call.Args) == 2 {
+			sep, _ := constString(x.Call.Args[1])
+			return sep == "."
 		}
-		n++
-		key := mu.Key
-		for {
-			call, isCall := key.(*ssa.Call)
-			if isCall && calleeName(&call.Call) == "strings.ToLower" {
-				key = call.Call.Args[0]
+	case *ssa.Parameter:
+		fn := x.Parent()
+		sites := gSites[fn]
+		if fn == nil || len(sites) == 0 || !onlyStaticallyCalled(fn) {
+			return false
+		}
+		for k, p := range fn.Params {
+			if p != x {
 				continue
 			}
-			break
+			for _, site := range sites {
+				cc := site.Common()
+				if k >= len(cc.Args) || !c11labelsInPlace(cc.Args[k], depth+1) {
+					return false
+				}
+			}
+			return true
 		}
-		nonEmpty := lenLowerBound(i.Block(), key, 0) >= 1
-		for _, f := range factsAt(i.Block()) {
-			if b, isB := f.Cond.(*ssa.BinOp); isB && (b.Op == token.NEQ || b.Op == token.EQL) {
-				if s, isK := constString(b.Y); isK && s == "" && samePath(key)(b.X) && f.Truth == (b.Op == token.NEQ) {
+	}
+	return false
+}
+
+func runC11M3(c *Ctx, m *c11Model) {
+	if len(m.cbs) == 0 || m.idxFld == "" {
+		return // reported by M1 / the model
+	}
+	n := 0
+	eachInstrOf(m.hsReg, func(f *ssa.Function, i ssa.Instruction) {
+		lk, ok := i.(*ssa.Lookup)
+		if !ok || !m.isIndexMap(lk.X) {
+			return
+		}
+		// what the key is made of: "*" constants in its data flow (concatenated wildcards) and strings.Join calls
+		star := false
+		var joins []*ssa.Call
+		derives(lk.Index, func(v ssa.Value) bool {
+			if s, isK := constString(v); isK && strings.Contains(s, "*") {
+				star = true
+			}
+			if call, isC := v.(*ssa.Call); isC && calleeName(&call.Call) == "strings.Join" {
+				joins = append(joins, call)
+			}
+			return false
+		})
+		if !star && len(joins) == 0 {
+			return // exact lookup: the key is the normalised name itself
+		}
+		n++
+		ok2 := !star && len(joins) > 0
+		for _, join := range joins {
+			sep, _ := constString(join.Call.Args[1])
+			if sep != "." || !c11labelsInPlace(join.Call.Args[0], 0) {
+				ok2 = false
+			}
+		}
+		c.check("C11.M3", fnKey(f)+"|wildcard candidate keeps the label count of the requested name", lk.Pos(), ok2,
+			"a wildcard certificate covers exactly the labels it replaces: candidates must be the requested name with labels replaced by \"*\" in place (strings.Split / store \"*\" / strings.Join), so '*.bar.com' is tried for 'a.bar.com' but never for 'a.b.bar.com'; building candidates as \"*.\"+<parent domain> presents a wildcard certificate for names it does not cover instead of the default certificate (or none with strict matching)")
+	})
+	c.atLeast("C11.M3", "wildcard lookups in the name index below the handshake callbacks", n, 1)
+}
+
+// ---- C11.M4: only names are indexed ----------------------------------------------------------------------------------
+
+// c11keyIsName: at block b the index key is known non-empty or is an element of a certificate's DNSNames. A key that is
+// the parameter of an unexported helper is judged at every call site of the helper. leaves counts the judged origins.
+func c11keyIsName(b *ssa.BasicBlock, key ssa.Value, depth int, leaves *int) bool {
+	for {
+		call, isCall := key.(*ssa.Call)
+		if isCall && len(call.Call.Args) == 1 && (calleeName(&call.Call) == "strings.ToLower" || calleeName(&call.Call) == "strings.TrimSpace") {
+			key = call.Call.Args[0]
+			continue
+		}
+		break
+	}
+	nonEmpty := lenLowerBound(b, key, 0) >= 1
+	for _, f := range factsAt(b) {
+		if bo, isB := f.Cond.(*ssa.BinOp); isB && (bo.Op == token.NEQ || bo.Op == token.EQL) {
+			for _, p := range [][2]ssa.Value{{bo.X, bo.Y}, {bo.Y, bo.X}} {
+				if s, isK := constString(p[1]); isK && s == "" && samePath(key)(p[0]) && f.Truth == (bo.Op == token.NEQ) {
 					nonEmpty = true
 				}
 			}
 		}
-		san := strings.Contains(accessPath(key), ".DNSNames[")
-		c.check("C11.M4", "cert.certstore.BuildNameToCertificate|index key "+shortPath(mu.Key)+" is a name", i.Pos(), nonEmpty || san,
-			"an index key must be known non-empty (len(name) > 0) or be an element of the certificate's DNSNames: a SAN-only certificate has an empty common name, and an entry under \"\" is what a client hello without a server name looks up — it would get that certificate instead of the first one (or instead of none with strict matching)")
-	})
-	c.atLeast("C11.M4", "stores into the name index", n, 2)
+	}
+	if nonEmpty || strings.Contains(accessPath(key), ".DNSNames[") {
+		*leaves++
+		if p, ok := key.(*ssa.Parameter); ok && p.Parent() != nil && len(gSites[p.Parent()]) > 1 {
+			*leaves += len(gSites[p.Parent()]) - 1 // a guarded helper: every call site hands it one origin
+		}
+		return true
+	}
+	if p, ok := key.(*ssa.Parameter); ok && depth < 3 {
+		fn := p.Parent()
+		sites := gSites[fn]
+		if fn != nil && len(sites) > 0 && onlyStaticallyCalled(fn) {
+			for k, q := range fn.Params {
+				if q != p {
+					continue
+				}
+				all := true
+				for _, s := range sites {
+					cc := s.Common()
+					if k >= len(cc.Args) || s.Block() == nil || !c11keyIsName(s.Block(), cc.Args[k], depth+1, leaves) {
+						all = false
+					}
+				}
+				return all
+			}
+		}
+	}
+	*leaves++
+	return false
 }
 
-// ---- C11.M5: SetCertificates publishes every set it is given -------------------------------------------------
+func runC11M4(c *Ctx, m *c11Model) {
+	if m.idxFld == "" {
+		return // reported by the model
+	}
+	n := 0
+	for _, f := range c.fnsWhere("cert", func(*ssa.Function) bool { return true }) {
+		eachInstr(f, func(i ssa.Instruction) {
+			mu, ok := i.(*ssa.MapUpdate)
+			if !ok || !m.isIndexMap(mu.Map) {
+				return
+			}
+			c.check("C11.M4", fnKey(f)+"|index key "+shortPath(mu.Key)+" is a name", i.Pos(), c11keyIsName(i.Block(), mu.Key, 0, &n),
+				"an index key must be known non-empty (len(name) > 0) or be an element of the certificate's DNSNames: a SAN-only certificate has an empty common name, and an entry under \"\" is what a client hello without a server name looks up — it would get that certificate instead of the first one (or instead of none with strict matching)")
+		})
+	}
+	c.atLeast("C11.M4", "origins of keys stored into the name index (common name, SANs)", n, 2)
+}
 
-func runC11M5(c *Ctx) {
-	set := c.method("cert", "Store", "SetCertificates")
-	if !c.need("C11.M5", set, "cert.Store.SetCertificates") {
-		return
-	}
-	isPublish := func(i ssa.Instruction) bool {
-		cc := callCommon(i)
-		return cc != nil && calleeName(cc) == "(*sync/atomic.Value).Store"
-	}
-	if len(set.Blocks) == 0 || len(set.Blocks[0].Instrs) == 0 {
-		return
+// ---- C11.M5: the publish entry publishes every set it is given -------------------------------------------------------
+
+func runC11M5(c *Ctx, m *c11Model) {
+	set := m.entry
+	if set == nil || len(set.Blocks) == 0 || len(set.Blocks[0].Instrs) == 0 {
+		return // reported by A1
 	}
 	first := set.Blocks[0].Instrs[0]
-	exit, skip := exitReachableAvoiding(first, isPublish)
-	if isPublish(first) {
+	exit, skip := exitReachableAvoiding(first, m.isPublish)
+	if liftMust(m.isPublish, 1)(first) {
 		skip = false
 	}
 	pos := set.Pos()
 	if exit != nil {
 		pos = exit.Pos()
 	}
-	c.check("C11.M5", "(*cert.Store).SetCertificates|every path publishes the new set", pos, !skip,
-		"SetCertificates can return without storing the set it was given: whatever notion of 'unchanged' guards the store, the default certificate is the FIRST of the most recently loaded set, so a reordered or otherwise 'equal' set must still replace the old one")
+	c.check("C11.M5", fnKey(set)+"|every path publishes the new set", pos, !skip,
+		"the function that is given a new certificate set can return without storing it: whatever notion of 'unchanged' guards the store, the default certificate is the FIRST of the most recently loaded set, so a reordered or otherwise 'equal' set must still replace the old one")
 }
-
-// ---- C12.X1: X-Forwarded-For elements are judged as written -------------------------------------------------
